@@ -20,9 +20,11 @@ class TObj:
         self.name, self.log = name, log
         self.c = c
         self.meta = {}
+        n = c.int(name + "_n")
+        c.assume(n >= 1)                       # trajectories have at least one pose
         if stamped:
-            self.timestamps = c.array(name + "_stamps", c.int(name + "_n"))
-        self.distances = c.array(name + "_distances", c.int(name + "_nd"))
+            self.timestamps = c.array(name + "_stamps", n)
+        self.distances = c.array(name + "_distances", n)
         self.align_result = None
         self.origin_result = None
 
@@ -171,8 +173,18 @@ class _Pipeline(FnContract):
             yield Clause("recorded_matrix_is_the_composition_of_the_applied_transformations", rec is not None and c.eq(rec, expm),
                          role="prop", props=["C04"], note="scale-only: s*I; similarity: [s r | t]; origin alignment multiplied from the left")
         if hasattr(res, "np_arrays"):
-            ts = res.np_arrays.get("timestamps")
-            yield Clause("companion_arrays_come_from_the_estimate", ts is not None, role="aux")
+            # companion arrays (C12): one entry per value, referring to the pose the value belongs to
+            ts, dr, de = res.np_arrays.get("timestamps"), res.np_arrays.get("distances_from_start"), res.np_arrays.get("distances")
+            if self.kind == "APE":
+                yield Clause("companion_arrays_are_the_processed_trajectories'_own_arrays", ts is est.timestamps and dr is ref.distances
+                             and de is est.distances, role="prop", props=["C12"])
+            else:
+                def tail_of(arr, base):
+                    return isinstance(arr, sym.SArr) and c.And(arr.shape[0] == base.shape[0] - 1, c.forall(
+                        arr.shape[0], lambda k: arr.row(k) == base.row(k + 1)))
+                yield Clause("companion_arrays_skip_the_first_pose_of_the_reduced_trajectories_(one_entry_per_pair_end)",
+                             c.And(tail_of(ts, est.timestamps), tail_of(dr, ref.distances), tail_of(de, est.distances)),
+                             role="prop", props=["C12"])
         if hasattr(res, "trajectories"):
             yield Clause("stored_trajectories_are_the_processed_ones", res.trajectories.get("reference") is ref and
                          res.trajectories.get("estimate") is est, role="prop")
